@@ -86,3 +86,15 @@ Proof. rewrite loglik_sum; [reflexivity|apply rint_IZR|]. repeat constructor; cb
 (* helpers for the interval-certified correspondence cases *)
 Lemma xlny_0 y : xlny 0 y = 0. Proof. unfold xlny. destruct (Req_EM_T 0 0); [reflexivity|contradiction]. Qed.
 Lemma xlny_nz x y : x <> 0 -> xlny x y = x * ln y. Proof. intros H. unfold xlny. destruct (Req_EM_T x 0); [contradiction|reflexivity]. Qed.
+
+(* ---- the conversion keeps the weighted count: rate x weight = count x sample weight, whatever the (non-zero) exposure;
+   so the exposure only moves mass between "rate" and "weight" and rescaling every exposure by c rescales rates by 1/c and weights by c *)
+Lemma rate_times_weight_is_count y e w : e <> 0 ->
+  fst (Gen_pois_fit_data y (Some e) (Some w)) * snd (Gen_pois_fit_data y (Some e) (Some w)) = y * w /\
+  fst (Gen_pois_fit_data y (Some e) None) * snd (Gen_pois_fit_data y (Some e) None) = y.
+Proof. intro He. destruct (fit_equiv y e w) as [H1 H2]. rewrite H1, H2. cbn [fst snd]. split; field; exact He. Qed.
+Lemma exposure_units y e w c : e <> 0 -> c <> 0 ->
+  Gen_pois_fit_data y (Some (c * e)) (Some w) =
+    (fst (Gen_pois_fit_data y (Some e) (Some w)) / c, c * snd (Gen_pois_fit_data y (Some e) (Some w))).
+Proof. intros He Hc. destruct (fit_equiv y (c * e) w) as [H1 _]. destruct (fit_equiv y e w) as [H2 _].
+  rewrite H1, H2. cbn [fst snd]. f_equal; field; split; assumption. Qed.
